@@ -125,6 +125,10 @@ inductive Step
   | crash (emit : Option Nat) (sel : List Bool)
   /-- The process dies before the final step (back-fill / clearing of the old buckets) commits. -/
   | crashFinal
+  /-- A batch write fails (disk full, I/O error): the committer returns the error, the pipeline is
+  cancelled; of the emitted ranges those selected had been (or still get) committed. `Migrate`
+  returns `(shouldRerun, err)`. In the final step: the back-fill / clearing write fails. -/
+  | writeFail (emit : Option Nat) (sel : List Bool)
 
 def selOf (l : List Bool) (i : Nat) : Bool := l.getD i false
 
@@ -140,6 +144,7 @@ def iteration (cfg : Cfg) (db : Db) (h : Nat) (st : Step) : Db × Option Ret :=
       match st with
       | .crashFinal => (db, some .crashed)
       | .crash _ _ => (db, some .crashed)
+      | .writeFail _ _ => (db, some .failed)
       | _ =>
         if cfg.skipUnstoredEmpty then (db, some .done)
         else match backfill db h with
@@ -152,6 +157,9 @@ def iteration (cfg : Cfg) (db : Db) (h : Nat) (st : Step) : Db × Option Ret :=
       | .crash emit sel =>
         let e := min (emit.getD all) all
         (applyPass cfg db f h (fun i => decide (i < e) && selOf sel i), some .crashed)
+      | .writeFail emit sel =>
+        let e := min (emit.getD all) all
+        (applyPass cfg db f h (fun i => decide (i < e) && selOf sel i), some .failed)
       | .pass emit =>
         let e := min (emit.getD all) all
         if passFails cfg db f h e then (db, some .failed)
